@@ -599,7 +599,7 @@ func (eng *Engine) buildAll(f *ssa.Function) []*FnVC {
 		con := *eng.specs.Contracts[k]
 		if own := eng.specs.Contracts[fnKey(f)]; own != nil {
 			// loop invariants are hints about the body, whichever contract it is checked against
-			con.Invs, con.Decr, con.Steps = own.Invs, own.Decr, own.Steps
+			con.Invs, con.Decr, con.Steps, con.Assumes = own.Invs, own.Decr, own.Steps, own.Assumes
 		}
 		out = append(out, eng.buildVCWith(f, &con, fnKey(f)+"~as~"+short))
 	}
@@ -697,4 +697,79 @@ func (eng *Engine) embID(name string) int {
 	id := len(eng.embIDs) + 1
 	eng.embIDs[name] = id
 	return id
+}
+
+// immutableHeapKey: field arrays / backing stores of types declared `immutable` (the syntax tree) are not touched
+// by havoc: the store-site inventory shows that nothing outside the parser writes them.
+func (eng *Engine) immutableHeapKey(k string) bool {
+	if len(eng.specs.Immutable) == 0 {
+		return false
+	}
+	var name string
+	switch {
+	case strings.HasPrefix(k, "F$"):
+		rest := k[2:]
+		i := strings.LastIndex(rest, "$")
+		if i < 0 {
+			return false
+		}
+		name = rest[:i]
+	case strings.HasPrefix(k, "Mem$"):
+		name = strings.TrimPrefix(strings.TrimPrefix(k[4:], "P_"), "S_")
+	default:
+		return false
+	}
+	return eng.specs.Immutable[name]
+}
+
+// inventoryImmutable: every store to a field / element of an immutable type lies in the packages that build the tree.
+func (eng *Engine) inventoryImmutable(allowedPkgs map[string]bool) []string {
+	var bad []string
+	isImm := func(t types.Type) bool {
+		for {
+			switch u := t.(type) {
+			case *types.Pointer:
+				t = u.Elem()
+				continue
+			case *types.Slice:
+				t = u.Elem()
+				continue
+			case *types.Named:
+				if u.Obj().Pkg() == nil {
+					return false
+				}
+				return eng.specs.Immutable[u.Obj().Pkg().Name()+"."+u.Obj().Name()]
+			}
+			return false
+		}
+	}
+	for _, f := range eng.funcs {
+		root := f
+		for root.Parent() != nil {
+			root = root.Parent()
+		}
+		if root.Pkg == nil || allowedPkgs[root.Pkg.Pkg.Name()] {
+			continue
+		}
+		for _, b := range f.Blocks {
+			for _, ins := range b.Instrs {
+				st, ok := ins.(*ssa.Store)
+				if !ok {
+					continue
+				}
+				switch a := st.Addr.(type) {
+				case *ssa.FieldAddr:
+					if isImm(a.X.Type()) {
+						bad = append(bad, fmt.Sprintf("%s: store to field of %s at %s", fnKey(f), a.X.Type(), eng.fset.Position(st.Pos())))
+					}
+				case *ssa.IndexAddr:
+					if sl, ok := a.X.Type().Underlying().(*types.Slice); ok && isImm(sl.Elem()) {
+						bad = append(bad, fmt.Sprintf("%s: store to element of %s at %s", fnKey(f), a.X.Type(), eng.fset.Position(st.Pos())))
+					}
+				}
+			}
+		}
+	}
+	sort.Strings(bad)
+	return bad
 }
